@@ -200,6 +200,13 @@ def _probe_known(ca, fid):
             except ValueError:
                 return True
             return False
+        if fid == "N13":
+            gs = ca.addrgroups("object-group network G\n description d", platform="ios")
+            try:
+                ca.AddrGroup(gs[0].line, platform="ios")
+            except ValueError:
+                return True
+            return False
         if fid == "N12":
             try:
                 ca.AddressAg(ca.AddressAg("10.0.0.0/24", platform="asa").line, platform="asa")
@@ -236,9 +243,10 @@ def matches_known(ctx, kernel, meta, failure):
             return "N7"
         if cls == "Remark" and r.strip() == "remark" and not meta.get("text", "").strip():
             return "N10"
-        if failure.get("platform") == "asa" and ((cls == "AddressAg" and r.strip() == "") or
-                                                 (cls == "AddrGroup" and any(not ln.strip() for ln in r.split("\n")[1:]))):
-            return "N12"
+        if cls == "AddrGroup" and meta.get("class") == "addrgroups" and len([x for x in r.split("\n") if x.strip()]) == 1:
+            return "N13"        # a group without members (only description lines in the configuration)
+        if failure.get("platform") == "asa" and ((cls == "AddressAg" and r.strip() == "") or cls == "AddrGroup"):
+            return "N12"        # address groups are not implemented for ASA (no header syntax, no prefix rendering)
         if cls == "Acl" and r.split("\n")[0].strip() in ("ip access-list extended", "ip access-list standard", "ip access-list"):
             return "N8"
     return None
